@@ -1,2 +1,18 @@
 import CG.Proofs.Basics
+import CG.Proofs.C03
+
 #print axioms CG.failed_stepRef_unchanged
+#print axioms CG.C03.step_eq_stepRef
+#print axioms CG.C03.failed_step_unchanged
+#print axioms CG.C03.failed_stepRef_unchanged
+#print axioms CG.C03.setEdgeImpl_eq
+#print axioms CG.C03.setEdgeImpl_eq_of_mem
+#print axioms CG.C03.addEdgeImpl_eq
+#print axioms CG.C03.changeEdgeTypeImpl_eq
+#print axioms CG.C03.replaceEdgeImpl_eq
+#print axioms CG.C03.addTimeEdgeImpl_eq
+#print axioms CG.C03.replaceNodeBaseImpl_eq
+#print axioms CG.C03.replaceNodeImpl_eq
+#print axioms CG.C03.addEdge_restore
+#print axioms CG.C03.copyEdgesImpl_spec
+#print axioms CG.C03.Ex.step_fails
